@@ -1920,7 +1920,11 @@ class _Date(Vector):
 			other = list(other)
 			if other and all(y is None or (isinstance(y, int) and not isinstance(y, bool)) for y in other):
 				other = Vector(other)
-		if isinstance(other, Vector) and other.schema() is not None and other.schema().kind == int:
+		if isinstance(other, Vector) and other.ndims() == 1 and (
+				(other.schema() is not None and other.schema().kind == int)
+				# (decided by the values, as for a plain sequence: a mask or slice of a mixed column keeps
+				# its <object> / <float> label although only day counts are left in it)
+				or (len(other) > 0 and all(y is None or (isinstance(y, int) and not isinstance(y, bool)) for y in other))):
 			if len(self) != len(other):
 				raise ValueError(f"Length mismatch: {len(self)} != {len(other)}")
 			return Vector(tuple(
